@@ -184,6 +184,14 @@ func (c *c03Oracle) Check(w *World, o *Obs) []Violation {
 			fmt.Sprintf("%s is %s at %s yet %s ended with a logged-in session for it", uidPut, why, o.Now.Format("2006-01-02T15:04:05.999999999"), st.Kind), "why", why))
 	case "probe":
 		path := st.str("path")
+		// the pages the guards redirect to are guarded pages too in many
+		// applications (Paths.LockNotOK / ConfirmNotOK)
+		switch path {
+		case "/nok/lock":
+			path = "/probe/lock"
+		case "/nok/confirm":
+			path = "/probe/confirm"
+		}
 		if path != "/probe/lock" && path != "/probe/confirm" {
 			break
 		}
